@@ -634,7 +634,7 @@ def run_shard(spec, emit):
     runner = Runner()
     scripts = scripts_for(tier, seed, shard, nshards) + auth_scripts_for(tier, seed, shard, nshards)
     random.Random(f"{seed}:{shard}").shuffle(scripts)
-    deadline = time.monotonic() + (120 if tier == "quick" else 1500)
+    deadline = time.monotonic() + (120 if tier == "quick" else 300)
     samples = 0
     for script in scripts:
         if time.monotonic() > deadline:
